@@ -1,6 +1,7 @@
 package gen
 
 import (
+	"encoding/json"
 	"fmt"
 	"math/big"
 	"strings"
@@ -319,6 +320,11 @@ func scalarOnce(t *rapid.T, o ScalarOpts, label string) *model.Node {
 				ty := rapid.SampledFrom(o.Types).Draw(t, label+"tref")
 				if kindOfType(ty) == kind || rapid.IntRange(0, 5).Draw(t, label+"mismatch") == 0 {
 					n.Rules = append(n.Rules, model.R("type", model.Str(ty.Name)))
+					// now and then the type's own example, as written there or under another spelling of
+					// its escapes (what a `const` or `enum` of the type is compared with)
+					if ty.Node != nil && ty.Node.Kind == "string" && kind == "string" && rapid.IntRange(0, 2).Draw(t, label+"sameasType") == 0 {
+						n.Lit = Respell(ty.Node.Lit, rapid.IntRange(0, 3).Draw(t, label+"respell"))
+					}
 				}
 			}
 		case 3: // or
@@ -636,4 +642,29 @@ func Permutation(t *rapid.T, n int, label string) []int {
 		p[i], p[j] = p[j], p[i]
 	}
 	return p
+}
+
+// Respell writes the JSON string literal lit with other escapes: variant 0 as it is, 1 the first character
+// as \uXXXX, 2 every `/` as `\/`, 3 the last character as \uXXXX. The denoted string is the same.
+func Respell(lit string, variant int) string {
+	var str string
+	if variant == 0 || json.Unmarshal([]byte(lit), &str) != nil || str == "" {
+		return lit
+	}
+	rs := []rune(str)
+	var b strings.Builder
+	b.WriteByte('"')
+	for i, r := range rs {
+		switch {
+		case r <= 0xFFFF && ((variant == 1 && i == 0) || (variant == 3 && i == len(rs)-1)):
+			fmt.Fprintf(&b, "\\u%04x", r)
+		case r == '/' && variant == 2:
+			b.WriteString("\\/")
+		default:
+			q, _ := json.Marshal(string(r))
+			b.Write(q[1 : len(q)-1])
+		}
+	}
+	b.WriteByte('"')
+	return b.String()
 }
